@@ -250,7 +250,7 @@ def parts(ext):
             cl = family.make_pipeline(TSPEC)
             FG.Work = cl['Work']
             data = {'configs': {
-                'leaf': {'tasks': ['ref.family_gen.Work'], 'p': 11, 'n_conf': 12},
+                'leaf': {'tasks': ['ref.family_gen.Work'], 'p': 11, 'n_conf': 12, 'd': 1e-05},
                 'mid': {'uses': ['#leaf as l'], 'p': 21},
                 'top': {'main_part': True, 'uses': '#mid as m', 'p': 31},
                 'other': {'tasks': ['ref.family_gen.Work'], 'p': 41, 'n_conf': 42},
@@ -274,6 +274,10 @@ def parts(ext):
                 want = {'l::work': 11}
             got = {n: t.params['p'] for n, t in ch.tasks.items()}
             ctx.check_concrete(got == want, 'parts', {'format': ext, 'entry': ['main_part', '#other', 'part=mid'][which], 'got': got})
+            if which != 1:
+                d = list(ch.tasks.values())[0].params['d']
+                ctx.check_concrete(type(d) is float and d == 1e-05, 'parts', {'format': ext, 'what': 'a float written as 1e-05 in the file',
+                                                                               'got': repr(d)})
         finally:
             cleanup(d)
     return harness
